@@ -41,6 +41,8 @@ def build_class(spec, name=None):
         elif p.get('needscfg'):
             kw['needscfg'] = True
             kw['readonly'] = bool(p.get('readonly'))
+            if p['needscfg'] == 'with-default':
+                kw['default'] = p['default']    # declared as "to be configured" although the class gives a default
         else:
             kw['default'] = p['default']
             # ro_how == 'cfg': writable in the class, made read-only by the configuration (cfg_overrides)
